@@ -1,16 +1,21 @@
 package main
 
+// Hash-consed term DAG: Bool, bit-vectors up to 64 bits (machine integers, float bit patterns),
+// and mathematical Int (model of math/big.Int). Constant folding keeps concrete code solver-free.
+
 import (
 	"fmt"
+	"math"
 	"math/big"
 	"strings"
 )
 
-type SortKind int
+type SortKind uint8
 
 const (
 	SBool SortKind = iota
 	SBV
+	SInt
 )
 
 type Sort struct {
@@ -19,13 +24,19 @@ type Sort struct {
 }
 
 func (s Sort) String() string {
-	if s.K == SBool {
+	switch s.K {
+	case SBool:
 		return "Bool"
+	case SInt:
+		return "Int"
 	}
 	return fmt.Sprintf("(_ BitVec %d)", s.W)
 }
 
-type Op int
+var boolSort = Sort{SBool, 0}
+var intSort = Sort{SInt, 0}
+
+type Op uint8
 
 const (
 	OConst Op = iota
@@ -58,89 +69,155 @@ const (
 	OExtract
 	OZExt
 	OSExt
+	// floating point over bit patterns (args are BV32/BV64 patterns)
+	OFpEq
+	OFpLt
+	OFpLe
+	OFpCvt // i1 = target width; result BV pattern
+	// mathematical integers
+	OIntAdd
+	OIntSub
+	OIntMul
+	OIntNeg
+	OIntLE
+	OIntLT
+	OIntDiv // SMT-LIB div (floor for positive divisor)
+	OIntMod
+	OBv2Nat
+	OInt2Bv // i1 = width
 )
 
 var opNames = map[Op]string{ONot: "not", OAnd: "and", OOr: "or", OEq: "=", OIte: "ite", OBvAdd: "bvadd", OBvSub: "bvsub", OBvMul: "bvmul",
 	OBvUDiv: "bvudiv", OBvURem: "bvurem", OBvSDiv: "bvsdiv", OBvSRem: "bvsrem", OBvAnd: "bvand", OBvOr: "bvor", OBvXor: "bvxor",
 	OBvShl: "bvshl", OBvLShr: "bvlshr", OBvAShr: "bvashr", OBvNeg: "bvneg", OBvNot: "bvnot", OBvULT: "bvult", OBvULE: "bvule",
-	OBvSLT: "bvslt", OBvSLE: "bvsle", OConcat: "concat"}
+	OBvSLT: "bvslt", OBvSLE: "bvsle", OConcat: "concat",
+	OIntAdd: "+", OIntSub: "-", OIntMul: "*", OIntNeg: "-", OIntLE: "<=", OIntLT: "<", OIntDiv: "div", OIntMod: "mod", OBv2Nat: "bv2nat"}
 
 type Term struct {
 	id      int
 	op      Op
 	sort    Sort
 	args    []*Term
-	val     *big.Int // const (bool: 0/1)
+	u       uint64   // const value for Bool / BV
+	bigv    *big.Int // const value for Int
 	name    string
 	i1, i2  int
 	emitted bool
 }
 
-type TermBank struct {
-	tab   map[string]*Term
-	terms []*Term
-	nvars int
+type termKey struct {
+	op         Op
+	k          SortKind
+	w          int
+	i1, i2     int
+	a0, a1, a2 int
+	name       string
 }
 
-func NewBank() *TermBank { return &TermBank{tab: map[string]*Term{}} }
+type constKey struct {
+	w int
+	u uint64
+}
+
+type TermBank struct {
+	tab    map[termKey]*Term
+	consts map[constKey]*Term
+	iconst map[string]*Term
+	terms  []*Term
+	tt, ff *Term
+}
+
+func NewBank() *TermBank {
+	b := &TermBank{tab: map[termKey]*Term{}, consts: map[constKey]*Term{}, iconst: map[string]*Term{}}
+	b.ff = b.add(&Term{op: OConst, sort: boolSort, u: 0})
+	b.tt = b.add(&Term{op: OConst, sort: boolSort, u: 1})
+	return b
+}
+
+func (b *TermBank) add(t *Term) *Term {
+	t.id = len(b.terms)
+	b.terms = append(b.terms, t)
+	return t
+}
 
 func (b *TermBank) mk(t *Term) *Term {
-	var sb strings.Builder
-	fmt.Fprintf(&sb, "%d|%d|%d|%d|%d|%s|", t.op, t.sort.K, t.sort.W, t.i1, t.i2, t.name)
-	if t.val != nil {
-		sb.WriteString(t.val.String())
+	k := termKey{op: t.op, k: t.sort.K, w: t.sort.W, i1: t.i1, i2: t.i2, a0: -1, a1: -1, a2: -1, name: t.name}
+	switch len(t.args) {
+	case 3:
+		k.a2 = t.args[2].id
+		fallthrough
+	case 2:
+		k.a1 = t.args[1].id
+		fallthrough
+	case 1:
+		k.a0 = t.args[0].id
+	case 0:
+	default:
+		panic("term arity")
 	}
-	for _, a := range t.args {
-		fmt.Fprintf(&sb, "|%d", a.id)
-	}
-	k := sb.String()
 	if e, ok := b.tab[k]; ok {
 		return e
 	}
-	t.id = len(b.terms)
-	b.terms = append(b.terms, t)
+	b.add(t)
 	b.tab[k] = t
 	return t
 }
 
-func mask(w int) *big.Int {
-	m := new(big.Int).Lsh(big.NewInt(1), uint(w))
-	return m.Sub(m, big.NewInt(1))
+func maskU(w int) uint64 {
+	if w >= 64 {
+		return ^uint64(0)
+	}
+	return (uint64(1) << uint(w)) - 1
 }
 
-func (b *TermBank) BV(v *big.Int, w int) *Term {
-	x := new(big.Int).And(v, mask(w)) // works for negative via two's complement? big.And on negative uses infinite two's complement: yes
-	return b.mk(&Term{op: OConst, sort: Sort{SBV, w}, val: x})
-}
-func (b *TermBank) BVu(v uint64, w int) *Term { return b.BV(new(big.Int).SetUint64(v), w) }
-func (b *TermBank) BVi(v int64, w int) *Term  { return b.BV(big.NewInt(v), w) }
-func (b *TermBank) Bool(v bool) *Term {
-	x := big.NewInt(0)
-	if v {
-		x = big.NewInt(1)
+func (b *TermBank) BVu(v uint64, w int) *Term {
+	v &= maskU(w)
+	k := constKey{w, v}
+	if t, ok := b.consts[k]; ok {
+		return t
 	}
-	return b.mk(&Term{op: OConst, sort: Sort{SBool, 0}, val: x})
+	t := b.add(&Term{op: OConst, sort: Sort{SBV, w}, u: v})
+	b.consts[k] = t
+	return t
 }
+func (b *TermBank) BVi(v int64, w int) *Term { return b.BVu(uint64(v), w) }
+func (b *TermBank) BV(v *big.Int, w int) *Term {
+	x := new(big.Int).And(v, new(big.Int).SetUint64(maskU(w)))
+	return b.BVu(x.Uint64(), w)
+}
+func (b *TermBank) Bool(v bool) *Term {
+	if v {
+		return b.tt
+	}
+	return b.ff
+}
+func (b *TermBank) IntC(v *big.Int) *Term {
+	s := v.String()
+	if t, ok := b.iconst[s]; ok {
+		return t
+	}
+	t := b.add(&Term{op: OConst, sort: intSort, bigv: new(big.Int).Set(v)})
+	b.iconst[s] = t
+	return t
+}
+func (b *TermBank) IntI(v int64) *Term { return b.IntC(big.NewInt(v)) }
+
 func (b *TermBank) Var(name string, s Sort) *Term {
 	return b.mk(&Term{op: OVar, sort: s, name: name})
 }
-func (t *Term) IsConst() bool { return t.op == OConst }
-func (t *Term) ConstU() uint64 { return t.val.Uint64() }
-func (t *Term) ConstBool() bool { return t.val.Sign() != 0 }
-func (t *Term) ConstS() int64 { // signed interpretation
-	w := t.sort.W
-	v := new(big.Int).Set(t.val)
-	if v.Bit(w-1) == 1 {
-		v.Sub(v, new(big.Int).Lsh(big.NewInt(1), uint(w)))
+func (t *Term) IsConst() bool   { return t.op == OConst }
+func (t *Term) ConstU() uint64  { return t.u }
+func (t *Term) ConstBool() bool { return t.u != 0 }
+func (t *Term) ConstS() int64   { return sext(t.u, t.sort.W) }
+
+func sext(u uint64, w int) int64 {
+	if w >= 64 {
+		return int64(u)
 	}
-	return v.Int64()
-}
-func signed(v *big.Int, w int) *big.Int {
-	x := new(big.Int).Set(v)
-	if x.Bit(w-1) == 1 {
-		x.Sub(x, new(big.Int).Lsh(big.NewInt(1), uint(w)))
+	if u&(uint64(1)<<uint(w-1)) != 0 {
+		return int64(u | ^maskU(w))
 	}
-	return x
+	return int64(u)
 }
 
 func (b *TermBank) Not(x *Term) *Term {
@@ -150,7 +227,7 @@ func (b *TermBank) Not(x *Term) *Term {
 	if x.op == ONot {
 		return x.args[0]
 	}
-	return b.mk(&Term{op: ONot, sort: Sort{SBool, 0}, args: []*Term{x}})
+	return b.mk(&Term{op: ONot, sort: boolSort, args: []*Term{x}})
 }
 func (b *TermBank) And(x, y *Term) *Term {
 	if x.IsConst() {
@@ -168,7 +245,7 @@ func (b *TermBank) And(x, y *Term) *Term {
 	if x == y {
 		return x
 	}
-	return b.mk(&Term{op: OAnd, sort: Sort{SBool, 0}, args: []*Term{x, y}})
+	return b.mk(&Term{op: OAnd, sort: boolSort, args: []*Term{x, y}})
 }
 func (b *TermBank) Or(x, y *Term) *Term {
 	if x.IsConst() {
@@ -186,14 +263,20 @@ func (b *TermBank) Or(x, y *Term) *Term {
 	if x == y {
 		return x
 	}
-	return b.mk(&Term{op: OOr, sort: Sort{SBool, 0}, args: []*Term{x, y}})
+	return b.mk(&Term{op: OOr, sort: boolSort, args: []*Term{x, y}})
 }
 func (b *TermBank) Eq(x, y *Term) *Term {
 	if x == y {
-		return b.Bool(true)
+		return b.tt
+	}
+	if x.sort != y.sort {
+		panic(fmt.Sprintf("sort mismatch in =: %v vs %v", x.sort, y.sort))
 	}
 	if x.IsConst() && y.IsConst() {
-		return b.Bool(x.val.Cmp(y.val) == 0)
+		if x.sort.K == SInt {
+			return b.Bool(x.bigv.Cmp(y.bigv) == 0)
+		}
+		return b.Bool(x.u == y.u)
 	}
 	if x.sort.K == SBool {
 		if x.IsConst() {
@@ -206,10 +289,35 @@ func (b *TermBank) Eq(x, y *Term) *Term {
 			return b.Not(x)
 		}
 	}
-	if x.id > y.id {
+	if x.IsConst() {
 		x, y = y, x
 	}
-	return b.mk(&Term{op: OEq, sort: Sort{SBool, 0}, args: []*Term{x, y}})
+	// (ite c k1 k2) == k  folds when all are constants
+	if y.IsConst() && x.op == OIte && x.args[1].IsConst() && x.args[2].IsConst() && x.sort.K != SInt {
+		e1, e2 := x.args[1].u == y.u, x.args[2].u == y.u
+		switch {
+		case e1 && e2:
+			return b.tt
+		case e1:
+			return x.args[0]
+		case e2:
+			return b.Not(x.args[0])
+		default:
+			return b.ff
+		}
+	}
+	// zero-extended value compared with a constant that does not fit
+	if y.IsConst() && x.op == OZExt && x.sort.K == SBV {
+		iw := x.args[0].sort.W
+		if y.u>>uint(iw) != 0 {
+			return b.ff
+		}
+		return b.Eq(x.args[0], b.BVu(y.u, iw))
+	}
+	if !y.IsConst() && x.id > y.id {
+		x, y = y, x
+	}
+	return b.mk(&Term{op: OEq, sort: boolSort, args: []*Term{x, y}})
 }
 func (b *TermBank) Ite(c, x, y *Term) *Term {
 	if c.IsConst() {
@@ -230,23 +338,29 @@ func (b *TermBank) Ite(c, x, y *Term) *Term {
 	return b.mk(&Term{op: OIte, sort: x.sort, args: []*Term{c, x, y}})
 }
 
+func isCmp(op Op) bool {
+	switch op {
+	case OBvULT, OBvULE, OBvSLT, OBvSLE:
+		return true
+	}
+	return false
+}
+
 func (b *TermBank) Bin(op Op, x, y *Term) *Term {
 	w := x.sort.W
 	if x.sort != y.sort {
 		panic(fmt.Sprintf("sort mismatch in %v: %v vs %v", opNames[op], x.sort, y.sort))
 	}
 	if x.IsConst() && y.IsConst() {
-		if r := foldBin(op, x.val, y.val, w); r != nil {
-			switch op {
-			case OBvULT, OBvULE, OBvSLT, OBvSLE:
-				return b.Bool(r.Sign() != 0)
+		if r, ok := foldBin(op, x.u, y.u, w); ok {
+			if isCmp(op) {
+				return b.Bool(r != 0)
 			}
-			return b.BV(r, w)
+			return b.BVu(r, w)
 		}
 	}
-	// light identities
-	isZero := func(t *Term) bool { return t.IsConst() && t.val.Sign() == 0 }
-	isOnes := func(t *Term) bool { return t.IsConst() && t.val.Cmp(mask(w)) == 0 }
+	isZero := func(t *Term) bool { return t.IsConst() && t.u == 0 }
+	isOnes := func(t *Term) bool { return t.IsConst() && t.u == maskU(w) }
 	switch op {
 	case OBvAdd, OBvOr, OBvXor:
 		if isZero(x) {
@@ -269,99 +383,150 @@ func (b *TermBank) Bin(op Op, x, y *Term) *Term {
 		if isOnes(y) {
 			return x
 		}
+		if x == y {
+			return x
+		}
+		// mask of a zero-extended narrower value that keeps all its bits
+		if y.IsConst() && x.op == OZExt {
+			iw := x.args[0].sort.W
+			if y.u&maskU(iw) == maskU(iw) {
+				return x
+			}
+		}
 	case OBvMul:
 		if isZero(x) || isZero(y) {
 			return b.BVu(0, w)
 		}
+		if x.IsConst() && x.u == 1 {
+			return y
+		}
+		if y.IsConst() && y.u == 1 {
+			return x
+		}
+	case OBvULT:
+		if isZero(y) {
+			return b.ff
+		}
+		if x == y {
+			return b.ff
+		}
+		if y.IsConst() && x.op == OZExt && y.u > maskU(x.args[0].sort.W) {
+			return b.tt
+		}
+	case OBvULE:
+		if isZero(x) || x == y {
+			return b.tt
+		}
+		if y.IsConst() && x.op == OZExt && y.u >= maskU(x.args[0].sort.W) {
+			return b.tt
+		}
+	case OBvSLE:
+		if x == y {
+			return b.tt
+		}
+	case OBvSLT:
+		if x == y {
+			return b.ff
+		}
 	}
 	s := Sort{SBV, w}
-	switch op {
-	case OBvULT, OBvULE, OBvSLT, OBvSLE:
-		s = Sort{SBool, 0}
+	if isCmp(op) {
+		s = boolSort
 	}
 	return b.mk(&Term{op: op, sort: s, args: []*Term{x, y}})
 }
 
-func foldBin(op Op, a, c *big.Int, w int) *big.Int {
-	m := mask(w)
-	r := new(big.Int)
-	bb := func(v bool) *big.Int {
-		if v {
-			return big.NewInt(1)
-		}
-		return big.NewInt(0)
+func bu(v bool) uint64 {
+	if v {
+		return 1
 	}
+	return 0
+}
+
+func foldBin(op Op, a, c uint64, w int) (uint64, bool) {
+	m := maskU(w)
 	switch op {
 	case OBvAdd:
-		return r.Add(a, c).And(r, m)
+		return (a + c) & m, true
 	case OBvSub:
-		return r.Sub(a, c).And(r, m)
+		return (a - c) & m, true
 	case OBvMul:
-		return r.Mul(a, c).And(r, m)
+		return (a * c) & m, true
 	case OBvAnd:
-		return r.And(a, c)
+		return a & c, true
 	case OBvOr:
-		return r.Or(a, c)
+		return a | c, true
 	case OBvXor:
-		return r.Xor(a, c)
+		return a ^ c, true
 	case OBvShl:
-		if c.Cmp(big.NewInt(int64(w))) >= 0 {
-			return big.NewInt(0)
+		if c >= uint64(w) {
+			return 0, true
 		}
-		return r.Lsh(a, uint(c.Uint64())).And(r, m)
+		return (a << c) & m, true
 	case OBvLShr:
-		if c.Cmp(big.NewInt(int64(w))) >= 0 {
-			return big.NewInt(0)
+		if c >= uint64(w) {
+			return 0, true
 		}
-		return r.Rsh(a, uint(c.Uint64()))
+		return a >> c, true
 	case OBvAShr:
-		sa := signed(a, w)
-		sh := uint(w)
-		if c.Cmp(big.NewInt(int64(w))) < 0 {
-			sh = uint(c.Uint64())
+		sa := sext(a, w)
+		sh := uint64(w - 1)
+		if c < uint64(w) {
+			sh = c
 		}
-		return r.Rsh(sa, sh).And(r, m)
+		if sh > 63 {
+			sh = 63
+		}
+		return uint64(sa>>sh) & m, true
 	case OBvUDiv:
-		if c.Sign() == 0 {
-			return new(big.Int).Set(m)
+		if c == 0 {
+			return m, true
 		}
-		return r.Quo(a, c)
+		return a / c, true
 	case OBvURem:
-		if c.Sign() == 0 {
-			return new(big.Int).Set(a)
+		if c == 0 {
+			return a, true
 		}
-		return r.Rem(a, c)
+		return a % c, true
 	case OBvSDiv:
-		if c.Sign() == 0 {
-			return nil
+		if c == 0 {
+			return 0, false
 		}
-		return r.Quo(signed(a, w), signed(c, w)).And(r, m)
+		sa, sc := sext(a, w), sext(c, w)
+		if sc == -1 {
+			return uint64(-sa) & m, true
+		}
+		return uint64(sa/sc) & m, true
 	case OBvSRem:
-		if c.Sign() == 0 {
-			return nil
+		if c == 0 {
+			return 0, false
 		}
-		return r.Rem(signed(a, w), signed(c, w)).And(r, m)
+		sa, sc := sext(a, w), sext(c, w)
+		if sc == -1 {
+			return 0, true
+		}
+		return uint64(sa%sc) & m, true
 	case OBvULT:
-		return bb(a.Cmp(c) < 0)
+		return bu(a < c), true
 	case OBvULE:
-		return bb(a.Cmp(c) <= 0)
+		return bu(a <= c), true
 	case OBvSLT:
-		return bb(signed(a, w).Cmp(signed(c, w)) < 0)
+		return bu(sext(a, w) < sext(c, w)), true
 	case OBvSLE:
-		return bb(signed(a, w).Cmp(signed(c, w)) <= 0)
+		return bu(sext(a, w) <= sext(c, w)), true
 	}
-	return nil
+	return 0, false
 }
 
 func (b *TermBank) Neg(x *Term) *Term {
 	if x.IsConst() {
-		return b.BV(new(big.Int).Neg(x.val), x.sort.W)
+		return b.BVu(-x.u, x.sort.W)
 	}
 	return b.mk(&Term{op: OBvNeg, sort: x.sort, args: []*Term{x}})
 }
 func (b *TermBank) BvNot(x *Term) *Term {
 	if x.IsConst() {
-		return b.BV(new(big.Int).Xor(x.val, mask(x.sort.W)), x.sort.W)
+		return b.BVu(^x.u, x.sort.W)
 	}
 	return b.mk(&Term{op: OBvNot, sort: x.sort, args: []*Term{x}})
 }
@@ -370,14 +535,16 @@ func (b *TermBank) Extract(x *Term, hi, lo int) *Term {
 		return x
 	}
 	if x.IsConst() {
-		r := new(big.Int).Rsh(x.val, uint(lo))
-		return b.BV(r, hi-lo+1)
+		return b.BVu(x.u>>uint(lo), hi-lo+1)
 	}
 	if (x.op == OZExt || x.op == OSExt) && lo == 0 && hi < x.args[0].sort.W {
 		return b.Extract(x.args[0], hi, lo)
 	}
 	if x.op == OZExt && lo == 0 && hi >= x.args[0].sort.W {
 		return b.ZExt(x.args[0], hi+1)
+	}
+	if x.op == OZExt && lo >= x.args[0].sort.W {
+		return b.BVu(0, hi-lo+1)
 	}
 	return b.mk(&Term{op: OExtract, sort: Sort{SBV, hi - lo + 1}, args: []*Term{x}, i1: hi, i2: lo})
 }
@@ -389,7 +556,7 @@ func (b *TermBank) ZExt(x *Term, w int) *Term {
 		return b.Extract(x, w-1, 0)
 	}
 	if x.IsConst() {
-		return b.BV(x.val, w)
+		return b.BVu(x.u, w)
 	}
 	if x.op == OZExt {
 		return b.ZExt(x.args[0], w)
@@ -404,26 +571,202 @@ func (b *TermBank) SExt(x *Term, w int) *Term {
 		return b.Extract(x, w-1, 0)
 	}
 	if x.IsConst() {
-		return b.BV(signed(x.val, x.sort.W), w)
+		return b.BVu(uint64(sext(x.u, x.sort.W)), w)
+	}
+	if x.op == OZExt { // sign bit is known zero
+		return b.ZExt(x.args[0], w)
 	}
 	return b.mk(&Term{op: OSExt, sort: Sort{SBV, w}, args: []*Term{x}, i1: w - x.sort.W})
 }
 
-// SMT printing: each non-leaf term is emitted once as a define-fun named tN.
+// ---- floating point over bit patterns ----
+
+func fpVal(u uint64, w int) float64 {
+	if w == 32 {
+		return float64(math.Float32frombits(uint32(u)))
+	}
+	return math.Float64frombits(u)
+}
+
+func (b *TermBank) FpCmp(op Op, x, y *Term) *Term {
+	if x.IsConst() && y.IsConst() {
+		a, c := fpVal(x.u, x.sort.W), fpVal(y.u, y.sort.W)
+		switch op {
+		case OFpEq:
+			return b.Bool(a == c)
+		case OFpLt:
+			return b.Bool(a < c)
+		case OFpLe:
+			return b.Bool(a <= c)
+		}
+	}
+	return b.mk(&Term{op: op, sort: boolSort, args: []*Term{x, y}})
+}
+func fpCvtU(u uint64, from, to int) uint64 {
+	if from == to {
+		return u
+	}
+	if from == 64 && to == 32 {
+		return uint64(math.Float32bits(float32(math.Float64frombits(u))))
+	}
+	return math.Float64bits(float64(math.Float32frombits(uint32(u))))
+}
+func (b *TermBank) FpCvt(x *Term, to int) *Term {
+	if x.sort.W == to {
+		return x
+	}
+	if x.IsConst() {
+		return b.BVu(fpCvtU(x.u, x.sort.W, to), to)
+	}
+	return b.mk(&Term{op: OFpCvt, sort: Sort{SBV, to}, args: []*Term{x}, i1: to})
+}
+
+// ---- mathematical integers ----
+
+func (b *TermBank) IntBin(op Op, x, y *Term) *Term {
+	if x.sort.K != SInt || y.sort.K != SInt {
+		panic("IntBin on non-Int")
+	}
+	if x.IsConst() && y.IsConst() {
+		r := new(big.Int)
+		switch op {
+		case OIntAdd:
+			return b.IntC(r.Add(x.bigv, y.bigv))
+		case OIntSub:
+			return b.IntC(r.Sub(x.bigv, y.bigv))
+		case OIntMul:
+			return b.IntC(r.Mul(x.bigv, y.bigv))
+		case OIntLE:
+			return b.Bool(x.bigv.Cmp(y.bigv) <= 0)
+		case OIntLT:
+			return b.Bool(x.bigv.Cmp(y.bigv) < 0)
+		case OIntDiv:
+			if y.bigv.Sign() != 0 {
+				return b.IntC(r.Div(x.bigv, y.bigv)) // Euclidean, as SMT-LIB
+			}
+		case OIntMod:
+			if y.bigv.Sign() != 0 {
+				return b.IntC(r.Mod(x.bigv, y.bigv))
+			}
+		}
+	}
+	isC := func(t *Term, v int64) bool { return t.IsConst() && t.bigv.IsInt64() && t.bigv.Int64() == v }
+	switch op {
+	case OIntAdd:
+		if isC(x, 0) {
+			return y
+		}
+		if isC(y, 0) {
+			return x
+		}
+	case OIntSub:
+		if isC(y, 0) {
+			return x
+		}
+		if x == y {
+			return b.IntI(0)
+		}
+	case OIntMul:
+		if isC(x, 1) {
+			return y
+		}
+		if isC(y, 1) {
+			return x
+		}
+		if isC(x, 0) || isC(y, 0) {
+			return b.IntI(0)
+		}
+		if !x.IsConst() && y.IsConst() { // constants first: canonical
+			x, y = y, x
+		} else if !x.IsConst() && !y.IsConst() && x.id > y.id {
+			x, y = y, x
+		}
+	case OIntDiv:
+		if isC(y, 1) {
+			return x
+		}
+	case OIntLE:
+		if x == y {
+			return b.tt
+		}
+	case OIntLT:
+		if x == y {
+			return b.ff
+		}
+	}
+	s := intSort
+	if op == OIntLE || op == OIntLT {
+		s = boolSort
+	}
+	return b.mk(&Term{op: op, sort: s, args: []*Term{x, y}})
+}
+func (b *TermBank) IntNeg(x *Term) *Term {
+	if x.IsConst() {
+		return b.IntC(new(big.Int).Neg(x.bigv))
+	}
+	if x.op == OIntNeg {
+		return x.args[0]
+	}
+	return b.mk(&Term{op: OIntNeg, sort: intSort, args: []*Term{x}})
+}
+func (b *TermBank) Bv2Nat(x *Term) *Term {
+	if x.IsConst() {
+		return b.IntC(new(big.Int).SetUint64(x.u))
+	}
+	return b.mk(&Term{op: OBv2Nat, sort: intSort, args: []*Term{x}})
+}
+
+// Bv2Int interprets x as a two's complement signed value.
+func (b *TermBank) Bv2IntS(x *Term) *Term {
+	if x.IsConst() {
+		return b.IntI(sext(x.u, x.sort.W))
+	}
+	w := x.sort.W
+	neg := b.Bin(OBvSLT, x, b.BVu(0, w))
+	two := new(big.Int).Lsh(big.NewInt(1), uint(w))
+	return b.Ite(neg, b.IntBin(OIntSub, b.Bv2Nat(x), b.IntC(two)), b.Bv2Nat(x))
+}
+func (b *TermBank) Int2Bv(x *Term, w int) *Term {
+	if x.IsConst() {
+		m := new(big.Int).Lsh(big.NewInt(1), uint(w))
+		r := new(big.Int).Mod(x.bigv, m)
+		return b.BVu(r.Uint64(), w)
+	}
+	if x.op == OBv2Nat && x.args[0].sort.W <= w {
+		return b.ZExt(x.args[0], w)
+	}
+	return b.mk(&Term{op: OInt2Bv, sort: Sort{SBV, w}, args: []*Term{x}, i1: w})
+}
+
+// ---- SMT printing: each non-leaf term is emitted once as a define-fun named tN ----
+
 func (t *Term) ref() string {
 	switch t.op {
 	case OConst:
-		if t.sort.K == SBool {
+		switch t.sort.K {
+		case SBool:
 			if t.ConstBool() {
 				return "true"
 			}
 			return "false"
+		case SInt:
+			if t.bigv.Sign() < 0 {
+				return "(- " + new(big.Int).Neg(t.bigv).String() + ")"
+			}
+			return t.bigv.String()
 		}
-		return fmt.Sprintf("(_ bv%s %d)", t.val.String(), t.sort.W)
+		return fmt.Sprintf("(_ bv%d %d)", t.u, t.sort.W)
 	case OVar:
 		return t.name
 	}
 	return fmt.Sprintf("t%d", t.id)
+}
+
+func fpOf(ref string, w int) string {
+	if w == 32 {
+		return "((_ to_fp 8 24) " + ref + ")"
+	}
+	return "((_ to_fp 11 53) " + ref + ")"
 }
 
 func (t *Term) body() string {
@@ -435,6 +778,18 @@ func (t *Term) body() string {
 		fmt.Fprintf(&sb, "((_ zero_extend %d) %s)", t.i1, t.args[0].ref())
 	case OSExt:
 		fmt.Fprintf(&sb, "((_ sign_extend %d) %s)", t.i1, t.args[0].ref())
+	case OInt2Bv:
+		fmt.Fprintf(&sb, "((_ int2bv %d) %s)", t.i1, t.args[0].ref())
+	case OFpEq, OFpLt, OFpLe:
+		n := map[Op]string{OFpEq: "fp.eq", OFpLt: "fp.lt", OFpLe: "fp.leq"}[t.op]
+		fmt.Fprintf(&sb, "(%s %s %s)", n, fpOf(t.args[0].ref(), t.args[0].sort.W), fpOf(t.args[1].ref(), t.args[1].sort.W))
+	case OFpCvt:
+		src := fpOf(t.args[0].ref(), t.args[0].sort.W)
+		if t.i1 == 32 {
+			fmt.Fprintf(&sb, "(fp.to_ieee_bv ((_ to_fp 8 24) RNE %s))", src)
+		} else {
+			fmt.Fprintf(&sb, "(fp.to_ieee_bv ((_ to_fp 11 53) RNE %s))", src)
+		}
 	default:
 		sb.WriteString("(" + opNames[t.op])
 		for _, a := range t.args {
@@ -445,64 +800,128 @@ func (t *Term) body() string {
 	return sb.String()
 }
 
-// evaluate a term under a model (vars -> big.Int); used for the model-based feasibility shortcut.
-func (b *TermBank) Eval(t *Term, m map[string]*big.Int, cache map[int]*big.Int) *big.Int {
+// ---- evaluation under a model (model-based feasibility shortcut, translator validation) ----
+
+type Model struct {
+	bv   map[string]uint64
+	ints map[string]*big.Int
+}
+
+type evalVal struct {
+	u uint64
+	b *big.Int
+}
+
+func (bk *TermBank) Eval(t *Term, m *Model, cache map[int]evalVal) evalVal {
+	if t.op == OConst {
+		return evalVal{t.u, t.bigv}
+	}
 	if v, ok := cache[t.id]; ok {
 		return v
 	}
-	var r *big.Int
-	bb := func(v bool) *big.Int {
-		if v {
-			return big.NewInt(1)
-		}
-		return big.NewInt(0)
-	}
-	ev := func(i int) *big.Int { return b.Eval(t.args[i], m, cache) }
+	var r evalVal
+	ev := func(i int) evalVal { return bk.Eval(t.args[i], m, cache) }
 	switch t.op {
-	case OConst:
-		r = t.val
 	case OVar:
-		if v, ok := m[t.name]; ok {
-			r = v
+		if t.sort.K == SInt {
+			if v, ok := m.ints[t.name]; ok {
+				r.b = v
+			} else {
+				r.b = new(big.Int)
+			}
 		} else {
-			r = big.NewInt(0)
+			r.u = m.bv[t.name]
 		}
 	case ONot:
-		r = bb(ev(0).Sign() == 0)
+		r.u = bu(ev(0).u == 0)
 	case OAnd:
-		r = bb(ev(0).Sign() != 0 && ev(1).Sign() != 0)
+		r.u = bu(ev(0).u != 0 && ev(1).u != 0)
 	case OOr:
-		r = bb(ev(0).Sign() != 0 || ev(1).Sign() != 0)
+		r.u = bu(ev(0).u != 0 || ev(1).u != 0)
 	case OEq:
-		r = bb(ev(0).Cmp(ev(1)) == 0)
+		if t.args[0].sort.K == SInt {
+			r.u = bu(ev(0).b.Cmp(ev(1).b) == 0)
+		} else {
+			r.u = bu(ev(0).u == ev(1).u)
+		}
 	case OIte:
-		if ev(0).Sign() != 0 {
+		if ev(0).u != 0 {
 			r = ev(1)
 		} else {
 			r = ev(2)
 		}
 	case OBvNeg:
-		r = new(big.Int).Neg(ev(0))
-		r.And(r, mask(t.sort.W))
+		r.u = (-ev(0).u) & maskU(t.sort.W)
 	case OBvNot:
-		r = new(big.Int).Xor(ev(0), mask(t.sort.W))
+		r.u = (^ev(0).u) & maskU(t.sort.W)
 	case OExtract:
-		r = new(big.Int).Rsh(ev(0), uint(t.i2))
-		r.And(r, mask(t.sort.W))
+		r.u = (ev(0).u >> uint(t.i2)) & maskU(t.sort.W)
 	case OZExt:
-		r = ev(0)
+		r.u = ev(0).u
 	case OSExt:
-		r = new(big.Int).And(signed(ev(0), t.args[0].sort.W), mask(t.sort.W))
+		r.u = uint64(sext(ev(0).u, t.args[0].sort.W)) & maskU(t.sort.W)
 	case OConcat:
-		r = new(big.Int).Lsh(ev(0), uint(t.args[1].sort.W))
-		r.Or(r, ev(1))
+		r.u = ev(0).u<<uint(t.args[1].sort.W) | ev(1).u
+	case OFpEq:
+		r.u = bu(fpVal(ev(0).u, t.args[0].sort.W) == fpVal(ev(1).u, t.args[1].sort.W))
+	case OFpLt:
+		r.u = bu(fpVal(ev(0).u, t.args[0].sort.W) < fpVal(ev(1).u, t.args[1].sort.W))
+	case OFpLe:
+		r.u = bu(fpVal(ev(0).u, t.args[0].sort.W) <= fpVal(ev(1).u, t.args[1].sort.W))
+	case OFpCvt:
+		r.u = fpCvtU(ev(0).u, t.args[0].sort.W, t.i1)
+	case OIntAdd:
+		r.b = new(big.Int).Add(ev(0).b, ev(1).b)
+	case OIntSub:
+		r.b = new(big.Int).Sub(ev(0).b, ev(1).b)
+	case OIntMul:
+		r.b = new(big.Int).Mul(ev(0).b, ev(1).b)
+	case OIntNeg:
+		r.b = new(big.Int).Neg(ev(0).b)
+	case OIntLE:
+		r.u = bu(ev(0).b.Cmp(ev(1).b) <= 0)
+	case OIntLT:
+		r.u = bu(ev(0).b.Cmp(ev(1).b) < 0)
+	case OIntDiv:
+		d := ev(1).b
+		if d.Sign() == 0 {
+			r.b = new(big.Int)
+		} else {
+			r.b = new(big.Int).Div(ev(0).b, d)
+		}
+	case OIntMod:
+		d := ev(1).b
+		if d.Sign() == 0 {
+			r.b = new(big.Int).Set(ev(0).b)
+		} else {
+			r.b = new(big.Int).Mod(ev(0).b, d)
+		}
+	case OBv2Nat:
+		r.b = new(big.Int).SetUint64(ev(0).u)
+	case OInt2Bv:
+		mm := new(big.Int).Lsh(big.NewInt(1), uint(t.i1))
+		r.u = new(big.Int).Mod(ev(0).b, mm).Uint64()
 	default:
 		w := t.args[0].sort.W
-		r = foldBin(t.op, ev(0), ev(1), w)
-		if r == nil { // sdiv/srem by zero
-			r = big.NewInt(0)
+		v, ok := foldBin(t.op, ev(0).u, ev(1).u, w)
+		if !ok { // signed division by zero: SMT-LIB semantics
+			a := ev(0).u
+			if t.op == OBvSDiv {
+				if sext(a, w) < 0 {
+					v = 1
+				} else {
+					v = maskU(w)
+				}
+			} else {
+				v = a
+			}
 		}
+		r.u = v
 	}
 	cache[t.id] = r
 	return r
 }
+
+// dependsOnUnspecified reports terms whose value the Go-side evaluator cannot reproduce exactly
+// (division by zero, NaN conversions); the model shortcut is skipped for them.
+func (t *Term) hasFp() bool { return t.op == OFpCvt }
